@@ -542,6 +542,13 @@ def _run_fileseq(case, mon, viol):
                                  'truncate'])
                 if op in ('read', 'read_at') and not readable:
                     op = 'write'
+                if op in ('read', 'read_at') and text:
+                    # overwriting part of a multi-byte character leaves
+                    # bytes that do not decode: nothing to compare then
+                    try:
+                        bytes(content).decode(enc)
+                    except UnicodeDecodeError:
+                        op = 'tell'
                 if op == 'write':
                     d = piece()
                     b = d.encode(enc) if text else d
